@@ -19,7 +19,7 @@ man = {
         "name": "gosym",
         "path": "/verif/engine",
         "serves_properties": sorted(checks.keys()),
-        "kind_free_text": "own Go SSA (golang.org/x/tools/go/ssa) -> SMT-LIB2 path-wise symbolic executor with if-conversion; z3 4.8.12 / z3 5.1.0 / cvc5 back ends; harnesses are in-package Go files overlaid on /repo's working tree; every solver model is replayed against the native build before it is reported",
+        "kind_free_text": "own Go SSA (golang.org/x/tools/go/ssa) -> SMT-LIB2 path-wise symbolic executor with if-conversion; z3 5.1.0 (incremental) with cvc5 1.0.3 / z3 one-shot fall-backs; harnesses are in-package Go files overlaid on /repo's working tree; every solver model is replayed against the native build before it is reported",
     }],
     "checks": [],
     "not_applicable": [],
@@ -38,7 +38,7 @@ for p in props:
             "engine": "gosym",
             "level_claimed": {"category": "model_checking", "text": c["text"], "design_ref": c.get("design_ref", "DESIGN.md section 7")},
             "level_note": c["note"],
-            "technique": c.get("technique", "bounded symbolic execution of the real Go SSA + SMT (z3), counterexamples replayed natively"),
+            "technique": c.get("technique", "bounded symbolic execution of the real Go SSA + SMT (z3 5.1, cvc5), counterexamples replayed natively"),
         })
     else:
         man["not_applicable"].append({"property_id": pid, "reason": claims["not_applicable"].get(pid, "no solver-based check built for this property yet; see DESIGN.md")})
